@@ -1135,3 +1135,69 @@ Proof.
   exists c. split; [exact G1|]. split; [exact Hh|].
   intros k Hk1. destruct (Hk k Hk1) as [e' [A [B _]]]. exists e'. split; assumption.
 Qed.
+
+(* ================================================================== *)
+(* G. namespace values travel with the record (known finding F-C12-2)    *)
+
+Lemma env_ns_other : forall env n c k, k <> S n -> env_ns env n c k = env k.
+Proof.
+  intros env n c k H. unfold env_ns. destruct (Nat.eqb k (S n)) eqn:E; [|reflexivity].
+  apply Nat.eqb_eq in E. contradiction.
+Qed.
+
+Lemma env_ns_clean : forall env n c k, chain_pickle_err c = None -> env_ns env n c k = env k.
+Proof.
+  intros env n c k H. unfold env_ns. rewrite H. destruct (Nat.eqb k (S n)); [|reflexivity].
+  destruct (env k); reflexivity.
+Qed.
+
+(* the strongest true statement: when every namespace value the stand-ins hold pickles, the task's
+   own exception is delivered exactly as in [raising_task_delivered] *)
+Theorem own_exception_delivered_partial : forall fx rl env n job i t x ltb text ptb ptext c,
+    copy_ltb (EInfo.default_max_frames rl) ltb = Some c -> chain_pickle_err c = None ->
+    env n = PutOk -> env (S n) = PutOk -> picklable_exc fx x ->
+    handle_task_ns rl env n job i t x ltb text ptb ptext =
+    ([MAck job i; MReady job i false (PInfo (mk_ei t (EWT x text) (map sf_fr c) text false))],
+     inr (S (S n))).
+Proof.
+  intros fx rl env n job i t x ltb text ptb ptext c Hc Hp E0 E1 Hx.
+  unfold handle_task_ns. rewrite Hc.
+  apply handle_task_raises_ok.
+  - rewrite env_ns_clean by assumption. exact E0.
+  - rewrite env_ns_clean by assumption. exact E1.
+  - exact (copy_ltb_proj _ _ _ Hc).
+  - exact (proj1 Hx).
+Qed.
+
+(* ... and when one of them does not: whatever the task's exception is (however picklable), the
+   first READY is not sent and the job is answered by the MaybeEncodingError record -- type and
+   arguments of the task's own exception do not reach the caller *)
+Theorem ns_unpicklable_reported_as_encoding_error :
+  forall rl env n job i t x ltb text ptb ptext c r,
+    copy_ltb (EInfo.default_max_frames rl) ltb = Some c -> chain_pickle_err c = Some r ->
+    ptb <> [] -> env n = PutOk -> env (S n) = PutOk -> env (S (S n)) = PutOk ->
+    exists e2,
+      handle_task_ns rl env n job i t x ltb text ptb ptext =
+      ([MAck job i; MReady job i false (PInfo e2)], inr (S (S (S n)))) /\
+      ei_type e2 = CMee /\
+      exc_of (ei_exc e2) = mk_exc CMee [AStr r; AStr einfo_repr]
+                                  [(s_exc, AStr r); (s_value, AStr einfo_repr)].
+Proof.
+  intros rl env n job i t x ltb text ptb ptext c r Hc Hr Hp E0 E1 E2.
+  unfold handle_task_ns. rewrite Hc.
+  pose (env' := env_ns env n c).
+  pose (e := mk_ei t (EWT x text) (map sf_fr c) text false).
+  assert (Hres : task_result (EInfo.default_max_frames rl) (Raises t x (map lf_fr ltb) text)
+                 = Some (false, PInfo e)).
+  { unfold task_result, mk_einfo. rewrite (copy_ltb_proj _ _ _ Hc). reflexivity. }
+  assert (Hack : do_put env' n (MAck job i) = PutOk).
+  { unfold do_put, env'. rewrite env_ns_other by lia. rewrite E0. reflexivity. }
+  assert (Hput : do_put env' (S n) (MReady job i false (PInfo e)) = PutExc r).
+  { unfold do_put, env', env_ns. rewrite Nat.eqb_refl, E1, Hr. reflexivity. }
+  assert (H2 : env' (S (S n)) = PutOk).
+  { unfold env'. rewrite env_ns_other by lia. exact E2. }
+  destruct (encoding_error_path (EInfo.default_max_frames rl) env' n job i
+              (Raises t x (map lf_fr ltb) text) ptb ptext false (PInfo e) r Hack Hres Hput Hp H2)
+    as [e2 [_ [G2 [G3 [G4 _]]]]].
+  exists e2. split; [exact G2|]. split; [exact G3|exact G4].
+Qed.
